@@ -176,10 +176,10 @@ def replay_history(job: T.Tuple[str, T.List[T.Dict[str, T.Any]], int]) -> T.Dict
                 rc, out = run(meson + ['setup', '--reconfigure'] + flags + ['build', 'src'], d, env)
                 configuring = True
             elif a == 'ReconfigureFail':
-                how = rnd.choice(['invalid', 'error', 'error'])
+                how = rnd.choice(['invalid', 'error', 'error', 'error'])
                 if how == 'error':
                     flag.write_text('x')
-                rc, out = run(meson + ['setup', '--reconfigure'] + flags + (['-Dpopt=zz'] if how == 'invalid' else []) + ['build', 'src'], d, env)
+                rc, out = run(meson + ['setup', '--reconfigure'] + flags + (['-Ddefault_library=zz'] if how == 'invalid' else []) + ['build', 'src'], d, env)
                 if flag.exists():
                     flag.unlink()
             elif a == 'Wipe':
@@ -316,7 +316,7 @@ def main(chk: Check) -> None:
     quick = chk.tier == 'quick'
     rnd = random.Random(chk.seed)
     n_mc = 3 if quick else 4
-    n_short = 44 if quick else 10 ** 9
+    n_short = 50 if quick else 10 ** 9
     n_long = 8 if quick else 300
     long_len = 6 if quick else 7
     chk.rule = ('every complete history of 3 events over the replay alphabet exported by TLC (quick: seeded sample) plus '
@@ -328,7 +328,7 @@ def main(chk: Check) -> None:
     short = export_histories(chk, 3)
     chk.extra['histories_len3_total'] = len(short)
     chk.extra['situation_tags'] = sorted({t for _, tags in short for t in tags})
-    short = covering_sample(short, n_short, 2, rnd)
+    short = covering_sample(short, n_short, 3, rnd)
     longer = export_histories(chk, long_len, simulate=max(60, n_long))
     # situations that need more than three events (a value invalidated by a choice edit, an option removed after it
     # existed, ...) come from the longer histories: cover those first
